@@ -209,6 +209,7 @@ type PolyCtx struct {
 	opArgs         map[string][]Poly
 	copyMemo       map[*ssa.Alloc]*copyEntry
 	storePaths     map[string]bool
+	lenDepth       int
 	busyStorePaths bool
 	// LoadAt optionally pins the interpretation of loads: "entry" symbols for loads not reached by any store
 }
@@ -936,6 +937,46 @@ func (c *PolyCtx) lenOf(v ssa.Value) Poly {
 		if x.Value == nil {
 			return polyConst(0) // nil slice
 		}
+	case *ssa.Extract:
+		if call, ok := x.Tuple.(*ssa.Call); ok {
+			if l, ok := c.lenOfResult(call, x.Index); ok {
+				return l
+			}
+		}
+	case *ssa.Phi:
+		// the same length whichever way the slice was obtained
+		var l Poly
+		same := len(x.Edges) > 0 && c.lenDepth < 3
+		c.lenDepth++
+		for i, e := range x.Edges {
+			if !same {
+				break
+			}
+			le := c.lenOf(e)
+			if i == 0 {
+				l = le
+			} else if !le.Equal(l) {
+				same = false
+			}
+		}
+		c.lenDepth--
+		if same {
+			for k := range l {
+				if strings.Contains(k, "len(phi") || strings.Contains(k, "len(rec#") {
+					same = false
+				}
+			}
+		}
+		if same {
+			return l
+		}
+	}
+	if call, ok := v.(*ssa.Call); ok {
+		if _, isB := call.Call.Value.(*ssa.Builtin); !isB {
+			if l, ok := c.lenOfResult(call, -1); ok {
+				return l
+			}
+		}
 	}
 	s := c.sliceSym(v)
 	name := "len(" + strings.ReplaceAll(s.String(), "*", "·") + ")"
@@ -946,6 +987,59 @@ func (c *PolyCtx) lenOf(v ssa.Value) Poly {
 		c.lenSymVal[name] = v
 	}
 	return polySym(name)
+}
+
+// lenOfResult: the length of the idx-th result (-1: the only one) of a static call of a module
+// helper, when every return of the helper yields a slice of the same length and that length can
+// be said in the caller's terms (the helper is called on the caller's own parameters).
+func (c *PolyCtx) lenOfResult(call *ssa.Call, idx int) (Poly, bool) {
+	g := call.Call.StaticCallee()
+	if g == nil || call.Call.IsInvoke() || !isModuleFn(g) || g.Blocks == nil || c.lenDepth > 2 {
+		return nil, false
+	}
+	ch := NewPolyCtx(g)
+	ch.lenDepth = c.lenDepth + 1
+	trPoly, _ := callTranslator(g, call, c, ch)
+	var out Poly
+	n := 0
+	ok := true
+	Instrs(g, func(in ssa.Instruction) {
+		ret, isRet := in.(*ssa.Return)
+		if !isRet || !ok {
+			return
+		}
+		k := idx
+		if k < 0 {
+			k = 0
+		}
+		if k >= len(ret.Results) {
+			ok = false
+			return
+		}
+		if _, isSl := ret.Results[k].Type().Underlying().(*types.Slice); !isSl {
+			ok = false
+			return
+		}
+		l := trPoly(ch.lenOf(ret.Results[k]))
+		if n == 0 {
+			out = l
+		} else if !l.Equal(out) {
+			ok = false
+		}
+		n++
+	})
+	if !ok || n == 0 {
+		return nil, false
+	}
+	// only lengths said in terms the caller has too
+	for mono := range out {
+		for _, sym := range strings.Split(mono, "*") {
+			if strings.Contains(sym, "#") {
+				return nil, false
+			}
+		}
+	}
+	return out, true
 }
 
 // SliceBounds returns (base value, lo, hi) of a slice expression (hi defaults to len(base)).
